@@ -361,6 +361,47 @@ fn box_embedded_index(obs: &mut Obs, _thorough: bool) -> Res {
     Ok(())
 }
 
+/// slices as the last segment of a test query, of a count() argument and of a nested filter's query: whether
+/// a slice selects anything must be the emptiness of the RFC index sequence, for every sign of the step and
+/// every position of the bounds relative to the array (empty arrays included)
+fn box_embedded_slice(obs: &mut Obs, thorough: bool) -> Res {
+    let mut n = 0;
+    let bounds: Vec<Option<i64>> = if thorough { opt_range(-7, 7) } else { vec![None, Some(-7), Some(-5), Some(-3), Some(-2), Some(-1), Some(0), Some(1), Some(2), Some(4), Some(6)] };
+    let steps: Vec<Option<i64>> = vec![None, Some(-3), Some(-2), Some(-1), Some(0), Some(1), Some(2)];
+    let show = |x: &Option<i64>| x.map(|v| v.to_string()).unwrap_or_default();
+    for len in 0..=4usize {
+        let rows: Vec<J> = vec![
+            J::Obj(vec![("t".to_string(), arr(len))]),
+            J::Obj(vec![("t".to_string(), arr(0))]),
+            J::Obj(vec![("t".to_string(), J::Str("ab".into()))]),
+            J::Obj(vec![]),
+            arr(len),
+        ];
+        let doc = J::Arr(rows);
+        for s in &bounds {
+            for e in &bounds {
+                for st in &steps {
+                    let sl = match st {
+                        None => format!("{}:{}", show(s), show(e)),
+                        Some(_) => format!("{}:{}:{}", show(s), show(e), show(st)),
+                    };
+                    for text in [format!("$[?@.t[{}]]", sl), format!("$[?!@.t[{}]]", sl), format!("$[?count(@.t[{}]) == 1]", sl), format!("$[?@[{}]]", sl), format!("$[?@.t[{}] || @.zz]", sl)] {
+                        let q = match crate::recog::parse_ast(&text) {
+                            Some(q) => q,
+                            None => return Err(Failure::new("harness inconsistency: box query not recognised", json!({"query": text}))),
+                        };
+                        check_q(&q, &doc, obs, false)?;
+                        n += 1;
+                    }
+                }
+            }
+        }
+        obs.nontrivial(&("embedded-slice", len), || json!({"rows": doc.to_value(), "shapes": ["$[?@.t[s:e:st]]", "$[?!@.t[s:e:st]]", "$[?count(@.t[s:e:st]) == 1]", "$[?@[s:e:st]]"]}));
+    }
+    obs.boxes.push(json!({"box": "slices inside test queries, negated tests, count() arguments, on rows whose arrays have length 0..4 (and rows without an array)", "queries": n, "exhaustive": true}));
+    Ok(())
+}
+
 fn direct(case: &Value, obs: &mut Obs) -> Res {
     let (q, _text, doc) = crate::props::c01::parse_direct(case)?;
     check_q(&q, &doc, obs, true)
@@ -381,6 +422,7 @@ pub fn prop() -> Prop {
             Sub { name: "box-boundary", kind: Kind::Exhaustive(box_boundary) },
             Sub { name: "box-long", kind: Kind::Exhaustive(box_long) },
             Sub { name: "box-embedded-index", kind: Kind::Exhaustive(box_embedded_index) },
+            Sub { name: "box-embedded-slice", kind: Kind::Exhaustive(box_embedded_slice) },
             Sub { name: "box-non-arrays", kind: Kind::Exhaustive(box_non_arrays) },
             Sub { name: "random-nested", kind: Kind::Random { f: random_nested, quick: 200_000, thorough: 4_000_000, len: 400 } },
         ],
